@@ -4,6 +4,8 @@ category `proof` only where every obligation that carries the property's kernel 
 input of the contracted function); where bounded-buffer / bounded-string units carry it, the category is `other`
 and the text says "bounded"."""
 TECH_KANI = "contract-based deductive verification: requires/ensures harnesses on the real functions of /repo, discharged by Kani/CBMC (counterexamples replayed natively with cargo kani playback)"
+TECH_BOTH = ("contract-based deductive verification: requires/ensures on the real functions of /repo -- Kani/CBMC harnesses calling the functions in place "
+             "(counterexamples replayed natively), plus Verus/Z3 on leaf functions extracted mechanically from /repo on every run (tools/lift.py; unbounded, mathematical integers)")
 
 COMMON_TRUST = ("Trusted: rustc + Kani 0.68 MIR->goto translation, CBMC 6.11; the spec functions in /verif/spec (oracle, written from the D-Bus "
                 "specification); alloc::fmt::format, Signature::clone and str::to_string on error arms replaced by stubs (error payloads are not part "
@@ -12,7 +14,7 @@ COMMON_TRUST = ("Trusted: rustc + Kani 0.68 MIR->goto translation, CBMC 6.11; th
 CLAIMED = {
     "C01": {
         "category": "proof",
-        "technique": TECH_KANI,
+        "technique": TECH_BOTH,
         "text": "Each leaf mechanism of the D-Bus encoder named in the anchors is put under a contract stated against spec functions written from "
                 "the D-Bus marshalling table, and discharged for ALL inputs of that function (any message position, any bytes-written count, both "
                 "byte orders, any value, any writer position in the window): padding_for_n_bytes, SerializerCommon::add_padding/write, the nine "
@@ -50,7 +52,7 @@ CLAIMED = {
     },
     "C07": {
         "category": "proof",
-        "technique": TECH_KANI,
+        "technique": TECH_BOTH,
         "text": "ContainerDepths::{inc_structure,inc_array,inc_variant,inc_maybe,dec_*} are proved against the representation invariant "
                 "wf = (structures <= 32, arrays <= 32, total <= 64) for ALL counter states, in both feature configurations (default and gvariant): "
                 "Ok iff the incremented state is within the limits, exact new state, frame on the other counters, error kind names the exceeded "
@@ -92,14 +94,53 @@ CLAIMED = {
                 "schedule quantifier is discharged by that assumption plus the per-call contract.",
         "design_ref": "DESIGN.md §4 C15, §9",
     },
+    "C02": {
+        "category": "proof",
+        "technique": TECH_KANI,
+        "text": "Composed contract units: for each of the nine fixed-size basic types the REAL serializer method writes the value at an arbitrary "
+                "message position / byte order / writer offset and the REAL dbus::Deserializer then reads exactly those bytes (buffer cut at the end "
+                "of what was written): decoded value bit-equal to the original (NaN payloads included) and consumed length == written length, for ALL "
+                "values (complete, no bound). Containers: the generic T: Serialize / Visitor entry points are out of CBMC's reach, so the round trip "
+                "of arrays, dicts, structs and variants rests on the encoder-side mechanism contracts (serialize_seq, end_seq, struct element, fd index) "
+                "and the decoder-side mechanism contracts (ArrayDeserializer::new/next, struct, dict, variant; bounded buffers) being stated against the "
+                "SAME spec functions, plus a paper lemma -- those units run in this check and are counted separately as bounded. Strings bounded "
+                "(ASCII, L<=4 encoder / L<=3 decoder). NOT covered: dynamic Value/OwnedValue round trips, Option under option-as-array, GVariant.",
+        "note": COMMON_TRUST + "`kani::assume(serializer returned Ok)` in the composed units is justified by the C01.ser_* units (Ok for every admissible state). "
+                "The decoder's padding callee is replaced by its exact contract stub (unit C03.parse_padding). Termination not verified.",
+        "design_ref": "DESIGN.md §4 C02, §9",
+    },
+    "C12": {
+        "category": "other",
+        "technique": TECH_BOTH + "; reduced to the panic sites the parse path itself owns",
+        "text": "Reduced form. Under contract: (1) the two entry points that index the first byte of a message (Message::from_raw_parts, "
+                "PrimaryHeader::read) return an error for the empty buffer and never hand it to the decoder (complete for that length; found and fixed "
+                "a panic); (2) FieldPos::build/read, the cached header-field positions that are re-validated with expect(): a field that borrows from "
+                "the message yields exactly its byte range, a foreign string never yields an out-of-range position, and reading a built position back "
+                "on the same buffer cannot hit the slice / UTF-8 expect (bounded: buffers <= 8 bytes); (3) padding_for_8_bytes (Verus, unbounded). "
+                "NOT decided: header/field/body decoding of hostile bytes (serde-derived code through Data/Value: out of CBMC's reach; its leaf decoders "
+                "are C03/C04's bounded contracts) and the body-offset invariant of Message (a second panic -- body() on a message that ends before its "
+                "alignment padding -- was found with a native probe and fixed, but no unit can decide it).",
+        "note": COMMON_TRUST + "PrimaryHeader::read_from_data is replaced by a failing stub in the empty-buffer units (they show it is not reached). "
+                "The T::try_from expect in FieldPos::read relies on validators being pure functions (same string validated at build time): argued, not checked.",
+        "design_ref": "DESIGN.md §4 C12, §9",
+    },
+    "C23": {
+        "category": "other",
+        "technique": TECH_KANI + "; bounded string length; percent codec only",
+        "text": "Reduced to the percent codec the anchors name. decode_hex: for EVERY char, Ok(v) iff ASCII hex digit, with its value (complete). "
+                "decode_percents: for every ASCII string of length <= 3 (quick) / <= 5 (thorough), Ok iff a spec decoder written from the D-Bus "
+                "specification accepts (optionally-escaped set verbatim, %XX decoded, everything else an error), and the decoded bytes are equal. "
+                "encode_percents (driven through core::fmt::write into a fixed sink): for every byte string (all 256 values) of length <= 2 the output "
+                "is a valid escaping whose spec decoding is the input -- so decode(encode(v)) = v by the two contracts. NOT covered: Address::from_str, "
+                "option maps, per-transport from_options/Display (HashMap, String, OsString): a change there is not detected.",
+        "note": COMMON_TRUST + "Bounded by string length; core::fmt::write is executed.",
+        "design_ref": "DESIGN.md §4 C23, §9",
+    },
 }
 
 # designed (DESIGN.md §4) but the units are not built: listed under not_applicable with that reason
 NOT_BUILT = {
-    "C02": "designed in DESIGN.md §4 (composed encode->decode harnesses + lemma over the C01/C03 contracts) but the composed units are not built; the C01 and C03 contracts are stated against the same spec functions, which is an argument, not a check, so the property is not claimed",
     "C05": "designed in DESIGN.md §4 (GVariant mechanisms under --features gvariant) but the units are not built; not claimed",
     "C06": "parser acceptance is out of reach (recursive winnow grammar does not finish at N<=4 under CBMC, Verus cannot process it); the formatting/length/equality units designed in DESIGN.md §4 are not built; not claimed",
     "C08": "designed in DESIGN.md §4 (one harness per pair of scalar Value variants) but the units are not built; container values are out of reach (allocation + recursion); not claimed",
-    "C12": "whole-message parsing runs serde-derived Header/Fields decoding through Value and Data (intractable under CBMC, measured); the reduced FieldPos/PrimaryHeader::read units designed in DESIGN.md §4 are not built; not claimed",
-    "C23": "the percent codec goes through core::fmt + String (round trip did not finish at N<=3 in 15 min); the decode_hex/decode_percents units designed in DESIGN.md §4 are not built; not claimed",
 }
